@@ -175,6 +175,17 @@ def scenario(draw, n_contests=(1, 2), kinds=None, audit_types=("CARD_COMPARISON"
             "pool_workflow": draw(st.sampled_from([True, True, False]))}
 
 
+def expand(scn, size):
+    """the scenario's cards (and their manual records) repeated up to `size` cards, each with an identifier of its own;
+    the last repetition is cut short"""
+    n0 = len(scn["cards"])
+    if not size or not n0:
+        return scn
+    cards = [dict(scn["cards"][i % n0], id=f"1-{i // 7}-{i}") for i in range(size)]
+    mvrs = [scn["mvrs"][i % n0] for i in range(size)]
+    return dict(scn, cards=cards, mvrs=mvrs)
+
+
 def from_file(obj):
     """the same value as if it had been read from a JSON/TOML file: equal, but none of its strings is the identical
     object as a constant of the library (configuration is read from files in real audits)"""
